@@ -137,6 +137,12 @@ def showGraph (g : List (Nat × Nat) × List (Nat × Nat × Bool × Bool)) : Str
     fun (u, v, val, c) => s!"{u}>{v}:{showBool val}:{showBool c}")
   s!"N={ns};E={es}"
 
+/-- the external reference marks of a DOT export: a `ref<u>` node per root `u` with an edge to
+`|u|`, complemented when `u < 0` (one edge per occurrence of the root in the given list) -/
+def showRoots (roots : List Int) : String :=
+  let rs := sortBy (fun (a b : Int) => a ≤ b) roots
+  "R=" ++ joinWith "," (rs.map fun u => s!"{u}>{u.natAbs}:{showBool (decide (u < 0))}")
+
 /-- run a model computation on manager `id` -/
 def runOn (ms : Mgrs) (id : Nat) (x : M Res) : Mgrs × Except Err Res :=
   match ms[id]? with
@@ -354,9 +360,9 @@ def stepMgr (op : String) (args : List String) : M Res := do
   | "to_nx", [] => return .str (showGraph (← liftE (toNx m.tbl [])))
   | "to_dot", [r] =>
     match parseInts r with
-    | some r => return .str (showGraph (← liftE (toDot m.tbl (some r))))
+    | some r => return .str (showGraph (← liftE (toDot m.tbl (some r))) ++ ";" ++ showRoots r)
     | none => M.throw .other
-  | "to_dot_all", [] => return .str (showGraph (← liftE (toDot m.tbl none)))
+  | "to_dot_all", [] => return .str (showGraph (← liftE (toDot m.tbl none)) ++ ";" ++ showRoots [])
   | "state", [] => return .str (dumpState m)
   | _, _ => M.throw .other
 
